@@ -40,6 +40,15 @@ fn gen_chain(rng: &mut Rng, len: usize) -> PortableRegistry {
 }
 
 pub fn gen_wf(rng: &mut Rng, thorough: bool) -> PortableRegistry {
+    gen_wf_case(rng, thorough, u64::MAX)
+}
+
+pub fn gen_wf_case(rng: &mut Rng, thorough: bool, case: u64) -> PortableRegistry {
+    // the first cases of a run are long reference chains (a kept root with more than 512 / 1024 / 2048 / 4096 types below it)
+    const LONG: [usize; 6] = [513, 1025, 1030, 2049, 2100, 4100];
+    if (case as usize) < 2 * LONG.len() {
+        return gen_chain(rng, LONG[case as usize / 2]);
+    }
     if rng.chance(1, 60) {
         let len = *rng.pick(&[10usize, 63, 64, 65, 66, 67, 100, 129, 200, 300, if thorough { 2000 } else { 500 }]);
         return gen_chain(rng, len);
@@ -156,7 +165,8 @@ pub fn run(a: &Args) -> Report {
         }
         fixed.eval(Some(hash_bytes(&refcodec::encode(&big))));
     }
-    if prop == "C10" && cfg.first_case == 0 {
+    let light = a.has("light");
+    if prop == "C10" && cfg.first_case == 0 && !light {
         // Long histories on ONE thread: whatever retain keeps between calls (scratch tables, counters, stamps) must not leak
         // into a later call. Probed at the periods where 8- and 16-bit counters come round: a large registry is processed,
         // then exactly P-1 small ones, then the large one again, for P in 255, 256, 65535, 65536.
@@ -205,6 +215,24 @@ pub fn run(a: &Args) -> Report {
                     break 'periods;
                 }
             }
+            // a call whose filter fails half-way (caught): what it retained so far must not be remembered by the next call
+            {
+                let mut answered = 0u32;
+                let mut victim = large.clone();
+                let r = guard(|| {
+                    victim.retain(|_| {
+                        answered += 1;
+                        if answered > 5 {
+                            panic!("injected fault: the filter fails");
+                        }
+                        true
+                    })
+                });
+                if r.is_err() {
+                    fixed.count("retain_calls_aborted_by_a_failing_filter", 1);
+                }
+                calls += 1;
+            }
             // exactly `period` calls after its ids were last touched
             let last = vec![large.types.len() as u32 - 1, (large.types.len() / 2) as u32];
             if !run_one(&large, &last, &mut fixed, &mut calls, "large registry again, two ids accepted") || !run_one(&large, &all_large, &mut fixed, &mut calls, "large registry again, everything accepted") {
@@ -217,12 +245,34 @@ pub fn run(a: &Args) -> Report {
     }
     let mut body = run_parallel(&cfg, |i, rep| {
         let mut rng = Rng::derive(seed ^ 0x10, i);
-        let before = gen_wf(&mut rng, thorough);
+        // short form for slow interpreters (other platforms): registries of 33..70 entries, so that ids beyond one machine word occur
+        let before = if light {
+            loop {
+                let r = reggen::gen_registry(&mut rng, &Cfg { mode: Mode::WellFormed, max_types: 70, mid: false, big: false });
+                if r.types.len() >= 33 {
+                    break r;
+                }
+            }
+        } else {
+            gen_wf_case(&mut rng, thorough, i)
+        };
         if let Err(e) = wf::check(&before, true) {
             rep.inconclusive(format!("generator produced an ill-formed input in case {}: {}", i, e));
             return;
         }
-        let (accepted, fname) = gen_filter(&mut rng, &before);
+        let (accepted, fname) = if light {
+            let n = before.types.len();
+            match i % 3 {
+                0 => (vec![rng.below(n) as u32], "single"),
+                1 => {
+                    let (x, y) = (rng.below(n) as u32, rng.below(n) as u32);
+                    (vec![x.min(y), x.max(y)].into_iter().collect::<BTreeSet<_>>().into_iter().collect(), "pair")
+                }
+                _ => ((0..n as u32).filter(|_| rng.chance(3, 10)).collect(), "random-subset"),
+            }
+        } else {
+            gen_filter(&mut rng, &before)
+        };
         let acc: BTreeSet<u32> = accepted.iter().copied().collect();
         let enc = refcodec::encode(&before);
         let mut key = enc.clone();
